@@ -13,10 +13,10 @@ EXPLANATION = ("Link contracts over the AST of rp2_full_report.py. (write side) 
                "start of each asset (transactions compare by spreadsheet row id, unique per asset only). (read side) every linked cell of the detail table "
                "passes as link target the transaction whose attribute it displays (taxable event for columns 5-11, acquired lot for 12-19); "
                "__get_hyperlinked_transaction_value returns the bare value when the transaction is not in the map (hidden by the filter) and otherwise a "
-               "HYPERLINK to '#<that transaction's asset> In-Out'.a<row>:z<row>; the lookup is guarded. (summary) the (asset, year) map is stored with "
-               "row_index + 1 exactly when the year of the current fraction differs from the previous fraction's year, every summary cell links through "
-               "(asset, line.year), and the detail table is written before the summary lines; a lemma (z3) states that with non-decreasing years the "
-               "row stored last for a year is the first row of that year. Bounded: generated multi-asset inputs with colliding row numbers, unsorted "
+               "HYPERLINK to '#<that transaction's asset> In-Out'.a<row>:z<row>; the lookup is guarded. (summary) the (asset, year) entry is written with row_index + 1, if absent, whenever the year "
+               "of the current fraction differs from the previous fraction's year, every summary cell links through (asset, line.year), and the detail "
+               "table is written before the summary lines; a lemma (z3) gives the induction step of 'the stored row is the first row of that year' "
+               "(no monotonicity of years needed since fix 67a297a). Bounded: generated multi-asset inputs with colliding row numbers, unsorted "
                "rows and date windows; every formula payload parsed and the target row compared with the transaction it must describe.")
 TRUSTED = ["C10: the gain/loss set is iterated in taxable-event time order (years of consecutive fractions are non-decreasing when local years are monotone in the instant order; the other case is finding 9.2)",
            "ezodf stores the formula text unchanged", "dict semantics of CPython for keys with __eq__/__hash__ by internal id"]
@@ -53,6 +53,14 @@ def write_side(pr):
     mod = pr.tree.modules[_fr.MOD]
     stores = [n for n in ast.walk(mod.tree) if isinstance(n, ast.Subscript) and isinstance(n.ctx, ast.Store) and isinstance(n.value, ast.Attribute) and n.value.attr == "__in_out_sheet_transaction_2_row"]
     out.append(A.bvc(_fr.MOD + "/<module>", "frame", "only_the_three_table_writers_store_into_the_transaction_link_map", len(stores) == 3, _fr.REL, f"{len(stores)} stores"))
+    # keys of the link map are internal ids: they must be unique within an asset - sheet rows for parsed transactions, fresh negative ids for artificial ones
+    from props import C11
+    out += [vc for vc in C11.fee_split(pr) if "_row_is_" in vc.label or "artificial_ids_are_negative_and_fresh" in vc.label]
+    ct = A.func_node(pr.tree, "rp2.ods_parser.parse_ods")
+    cs = ast.unparse(ct) if ct else ""
+    out.append(A.bvc("rp2.ods_parser.parse_ods", "link", "parsed_transactions_get_their_one_based_sheet_row_as_id",
+                     "_create_and_process_transaction(configuration, row_values, current_table_type, i + 1, unfiltered_transaction_sets, artificial_transaction_list)" in cs and
+                     "for i, row in enumerate(input_sheet.rows()):" in cs, "src/rp2/ods_parser.py"))
     at = pr.tree.modules["rp2.abstract_transaction"]
     s = ast.unparse(at.tree)
     out.append(A.bvc("rp2.abstract_transaction.AbstractTransaction.__eq__", "post", "transactions_compare_and_hash_by_internal_id",
@@ -97,14 +105,14 @@ def summary(pr):
     q = _fr.G + "__generate_gain_loss_detail"
     f, w = _fr.detail_writer(pr)
     if w is not None:
-        st = [s for s in w.stores if s[0].startswith("self.__tax_sheet_year_2_row[")]
-        ok = len(st) == 1 and st[0][0] == "self.__tax_sheet_year_2_row[_AssetAndYear(asset, ELT.taxable_event.timestamp.year)]" and st[0][1] == "row_index + 1" and \
-            st[0][2] == (("ELT.taxable_event.timestamp.year != year", True),)
-        out.append(A.bvc(q, "link", "year_row_is_stored_exactly_when_the_year_changes", ok, _fr.REL, str(st)))
         body = ast.unparse(w.loop)
+        keep_first = "if gain_loss.taxable_event.timestamp.year != year:\n        self.__tax_sheet_year_2_row.setdefault(_AssetAndYear(asset, gain_loss.taxable_event.timestamp.year), row_index + 1)" in body
+        others = [s for s in w.stores if s[0].startswith("self.__tax_sheet_year_2_row[")]
+        out.append(A.bvc(q, "link", "first_row_of_a_year_is_kept", keep_first and not others, _fr.REL,
+                         "the (asset, year) entry must be written at a change of year and never overwritten: with interleaving years a plain assignment keeps the LAST block's first row"))
         out.append(A.bvc(q, "link", "year_tracks_the_previous_fractions_year",
                          "border_style = self.__get_border_style(gain_loss.taxable_event.timestamp.year, year)" in body and "year = border_style.year" in body and
-                         body.find("self.__tax_sheet_year_2_row[") < body.find("year = border_style.year"), _fr.REL))
+                         body.find("self.__tax_sheet_year_2_row.setdefault(") < body.find("year = border_style.year"), _fr.REL))
         bs = A.func_node(pr.tree, _fr.G + "__get_border_style")
         s = ast.unparse(bs) if bs else ""
         out.append(A.bvc(_fr.G + "__get_border_style", "post", "returns_the_current_year", "if year == 0:\n        year = current_year\n    if current_year != year:" in s and
@@ -128,14 +136,15 @@ def summary(pr):
 
 @_lemma("C19.first_row_of_year", props=["C19"])
 def _(lm):
-    """Induction step: the map entry of year y is written at row r only when the previous fraction's year differs from y.  With non-decreasing
-    years (yp <= y) a differing previous year is strictly smaller, so no earlier row carries y: r is the first row of y; and a row whose year
-    equals the previous one leaves the entry (already the first row) untouched."""
-    yp, y, r, first = z3.Ints("year_prev year_cur row first_row_of_cur")
-    stored = z3.If(y != yp, r, first)
-    lm.case("year_change_marks_the_first_row", lambda ex: ([yp <= y, y != yp], yp < y))
-    lm.case("same_year_keeps_the_entry", lambda ex: ([yp <= y, y == yp, first < r], stored == first))
-    lm.case("new_year_stores_this_row", lambda ex: ([yp < y], stored == r))
+    """The entry of year y is written (if absent) at every row whose year differs from the previous row's year.  The first row of y in the
+    table is such a row - it is the very first row (previous year 0, and years are >= 1) or its predecessor carries another year, otherwise
+    it would not be the first - and being the first row of y, no entry for y exists yet: setdefault stores it; later rows never overwrite."""
+    yp, y, r, first, stored_before = z3.Ints("year_prev year_cur row first_row_of_cur stored_before")
+    has_before = z3.Bool("entry_exists")
+    is_first = r == first
+    lm.case("first_row_of_a_year_triggers_the_store", lambda ex: ([y >= 1, z3.Or(yp == 0, yp != y)], yp != y))
+    lm.case("an_existing_entry_is_kept", lambda ex: ([has_before, stored_before == first], z3.If(has_before, stored_before, r) == first))
+    lm.case("an_absent_entry_gets_this_row", lambda ex: ([z3.Not(has_before), is_first], z3.If(has_before, stored_before, r) == first))
 
 
 MANIFEST_ENTRY = {
